@@ -103,7 +103,11 @@ def loadIke (c : IkeIn) : CfgRes IkeOut := do
   let integ ← loadAlgs Gen.Config.integTable ["sha256"] c.integ
   let prf ← loadAlgs Gen.Config.prfTable ["sha256"] c.prf
   let dh ← loadAlgs Gen.Config.dhTable ["14"] c.dh
-  let protect ← loadProtect c.protect
-  pure { transforms := encr ++ integ ++ prf ++ dh, lifetime := c.lifetime.getD 900, dpd := c.dpd.getD 60, protect := protect }
+  -- `Proposal(1, IKE, b'', encr + integ + prf + dh)`: a proposal without transforms is an InvalidSyntax, which the loader turns
+  -- into the configuration error (the per-entry proposals always carry the ESN transform)
+  if (encr ++ integ ++ prf ++ dh).isEmpty then .configurationError
+  else do
+    let protect ← loadProtect c.protect
+    pure { transforms := encr ++ integ ++ prf ++ dh, lifetime := c.lifetime.getD 900, dpd := c.dpd.getD 60, protect := protect }
 
 end PyIkev2.Impl
